@@ -110,6 +110,14 @@ def plan(tier):
                                 (['default_storage', '', 'reusable_storage_mtsafe'][part], 'exactly one' if quick else 'at least one') + ('; 6 hand-picked programs plus an evenly spread selection of 50' if quick else ''),
                           data='canary seed of every frame (32-bit): symbolic', bounds='<= 3 frames, one failing allocation per creation',
                           outside='allocation failure anywhere else than at the first operator new of a creation; failures inside the harness\'s own futures'))
+    for part in (6, 7):
+        vt = [[n - 1, bad] + list(sz) for n in (1, 2, 3) for bad in range(n) for sz in __import__('itertools').product((0, 1), repeat=n)]
+        if quick: vt = [v for v in vt if v[0] < 2 or sum(v[2:]) in (0, 3) or v[1] == 1]
+        units.append(dict(engine='e1', name='h_extra_throw_p%d' % part, tu='C19.cpp', defines=('C19_PART=%d' % part,), entry='h_extra_throw', unwind=14, vectors=vt,
+                          concrete=pick(vt, (5, 6, 7)), cbmc_extra=FS, timeout=600,
+                          space='promise_extra_storage over %s: 1..3 frames created and completed one after another, the factory of one of them throws [n-1, bad, sizes]' % ('default_storage' if part == 6 else 'reusable_storage') +
+                                ('; n = 3: equal sizes or the middle frame failing' if quick else '; full product'),
+                          data='canary seeds symbolic', bounds='<= 3 frames, one throwing factory', outside='T\'s move constructor throwing; several failing creations'))
     units.append(dict(engine='e1', name='h_stack2', tu='C19.cpp', defines=('C19_PART=3',), entry='h_stack2', unwind=14,
                       vectors=[[w, a, b] for w in (0, 1, 2) for a in (0, 1) for b in (0, 1)], concrete=[([0, 0, 0], [5, 6]), ([1, 1, 1], [7, 8]), ([2, 0, 1], [1, 2])],
                       cbmc_extra=('--max-field-sensitivity-array-size', '300'),
